@@ -22,7 +22,7 @@ from engines import edif_gen as G
 
 ENGINE_DIR = "Spydr/Edif"
 AUDIT = "Spydr/Edif/Audit.lean"
-MODULES = {"C05": ["Spydr.Edif.Props.C05", "Spydr.Edif.Props.C05Denote", "Spydr.Edif.Audit"],
+MODULES = {"C05": ["Spydr.Edif.Props.C05", "Spydr.Edif.Props.C05Denote", "Spydr.Edif.Props.C05Struct", "Spydr.Edif.Audit"],
            "C03": ["Spydr.Edif.Props.C03", "Spydr.Edif.Props.C03Closure", "Spydr.Edif.Props.C03Fragment", "Spydr.Edif.Audit"]}
 THEOREMS = json.load(open(os.path.join(os.path.dirname(__file__), "edif.meta.json")))["properties"]
 
@@ -41,6 +41,8 @@ SIG = {
     "dup_base_bit": "edif.reader.duplicate_base_bit_shifts_bus",
     "scalar_like_bus": "edif.reader.scalar_net_shorted_to_bus",
     "shared_stem": "edif.reader.bus_identity_by_identifier_stem",
+    "inst_no_viewref": "edif.reader.instance_without_reference",
+    "viewref_no_cellref": "edif.reader.instance_of_enclosing_cell",
     "odd_char": "edif.reader.string_token_charset",
     "backslash_bus": "edif.reader.backslash_bus_cable",
     "old_name": "edif.writer.oldname_raw_rename",
@@ -60,6 +62,8 @@ EXPECT = {
     "dup_base_bit": ["parse.view05.libs.cells.cables", "parse.file_view05.libs.cells.cables"],
     "scalar_like_bus": ["parse.view05.libs.cells.cables", "parse.raises.value"],
     "shared_stem": ["parse.view05.libs.cells.cables", "parse.raises.value"],
+    "inst_no_viewref": ["parse.result_not_well_formed.instance_without_reference", "parse.raises.runtime"],
+    "viewref_no_cellref": ["parse.result_not_well_formed.instance_reference_not_before_its_cell", "parse.raises.runtime"],
     "odd_char": ["reparse.raises.runtime", "history.reparse.raises.runtime"],
     "backslash_bus": ["roundtrip.view03.libraries.nets", "roundtrip.view03.libraries.#"],
     "old_name": ["reparse.raises.runtime", "history.reparse.raises.runtime"],
@@ -120,7 +124,8 @@ def derived_triggers03(c):
     return out
 
 
-TRIG05 = ["design_case", "after_design", "amp_bus", "glob", "bracket_tail", "dup_base_bit", "scalar_like_bus", "shared_stem"]
+TRIG05 = ["design_case", "after_design", "amp_bus", "glob", "bracket_tail", "dup_base_bit", "scalar_like_bus", "shared_stem",
+          "inst_no_viewref", "viewref_no_cellref"]
 TRIG03 = ["undefined_dir", "one_pin_array", "bitlike_scalar", "amp_bus", "glob", "bracket_tail", "backslash_bus",
           "old_name", "odd_prop_value", "odd_char"]
 
@@ -317,6 +322,31 @@ def mask_timestamp(tokens):
 # ------------------------------------------------------------------------------------------------
 # C05 cases
 # ------------------------------------------------------------------------------------------------
+def struct_problems(c):
+    """the reader-specific part of the Lean predicate StructWF (lean/Spydr/Edif/StructWF.lean) — plus the strict
+    clause "every instance has a reference" — evaluated on the implementation's result: every instance
+    references a cell declared BEFORE the cell it stands in; the top instance, if any, references a cell
+    of the netlist.  (Sibling names, pins in range, pins joined once: canon.wf_problems / check_name_consistent.)"""
+    pr = []
+    libs = c["libraries"]
+    for L, lib in enumerate(libs):
+        for D, d in enumerate(lib["definitions"]):
+            for k in d["instances"]:
+                r = k["ref"]
+                if r is None:
+                    pr.append("instance without reference")
+                elif not (r[0] < L or (r[0] == L and r[1] < D)):
+                    pr.append("instance reference not before its cell")
+                elif r[0] >= len(libs) or r[1] >= len(libs[r[0]]["definitions"]):
+                    pr.append("instance reference outside the netlist")
+    t = c["top"]
+    if t is not None:
+        r = t["ref"]
+        if r is None or r[0] >= len(libs) or r[1] >= len(libs[r[0]]["definitions"]):
+            pr.append("top instance without a declared cell")
+    return pr
+
+
 def c05_eval_text(work, drv, text, expect=None, trigger=None, corr_only=False):
     """Run one text through implementation and model.
     Returns dict(corr=None|(impl, model), spec=None|(signature, detail), impl_canon, tags)"""
@@ -337,7 +367,7 @@ def c05_eval_text(work, drv, text, expect=None, trigger=None, corr_only=False):
                     res["corr"] = ({"diff_at": d}, None)
             else:
                 res["corr"] = ("accepted", {"err": m.get("err"), "what": m.get("what")})
-        wf = canon.wf_problems(nl)
+        wf = canon.wf_problems(nl) or struct_problems(c)
         nc = check_name_consistent(c)
         if wf:
             res["spec"] = ("parse.result_not_well_formed." + wf[0].replace(" ", "_"), "; ".join(wf[:5]))
